@@ -207,6 +207,8 @@ def run(ctx, report):
                       'mnemo_to_att': Native(lambda n_, a_, f_: n_)})
         ev = Evaluator({})
         ev.env = scope
+        from ..consteval import bind_simple_locals
+        bind_simple_locals(ev, strm.body, scope, stop=att_if[0], skip=('args', 'mnemo'))
         try:
             ev.exec_stmts(att_if[0].body, scope)
         except NotConst as e:
